@@ -8,6 +8,10 @@
                                    (kw in if and or then else priority:<p>); AND/OR are atoms or actions by the block they are in
    F <k> <p/q>                  -> `<string> <p/q>`: the model of '{:.kf}'.format(x) (characters) and the value read back
    G <n> <p/q>                  -> `<p/q>`: the value read back from '{:.ng}'.format(x), `none` when the mantissa is not normalised
+   K <tok> <tok> ...            -> the premise `generate_control` reads from one IF/AND/OR clause (after the keyword):
+                                   `time <rel> <sec>` | `clock <rel> <sec>` | `value <node|link> <cls> <id> <attr> <rel> <v>` | none
+                                   tokens: w:<word (lower case)>  h:<h>:<m>:<s>  c:<h>:<m>:<s>:<AM|PM>  n:<int>
+   A <pipe|pump|valve> <tok>    -> the action `_read_control_line` builds from the third word: status <s> | speed <v> | setting <v> | none
    anything else                -> bad -/
 import WntrModel.Model.InpText
 open Wntr.InpText
@@ -22,6 +26,23 @@ def parseRat (s : String) : Option Rat :=
   | _ => none
 
 def showRat (r : Rat) : String := s!"{r.num}/{r.den}"
+
+def parseTok (t : String) : Option Tok :=
+  match t.splitOn ":" with
+  | ["w", w] => some (.word w)
+  | "w" :: ws => some (.word (String.intercalate ":" ws))
+  | ["h", h, m, s] => do some (.hms (← h.toInt?) (← m.toInt?) (← s.toInt?))
+  | ["c", h, m, s, ap] => do some (.clock (← h.toInt?) (← m.toInt?) (← s.toInt?) (ap == "PM"))
+  | ["n", v] => v.toInt?.map Tok.num
+  | _ => none
+
+def relName : Rel → String
+  | .gt => "gt" | .ge => "ge" | .lt => "lt" | .le => "le" | .eq => "eq" | .ne => "ne"
+
+def showAtom : RAtom → String
+  | .sysTime r s => s!"time {relName r} {s}"
+  | .sysClock r s => s!"clock {relName r} {s}"
+  | .value isNode cls n a r v => s!"value {if isNode then "node" else "link"} {cls} {n} {a} {relName r} {v}"
 
 def showTree : Cond Nat → String
   | .atom a => toString a
@@ -77,6 +98,21 @@ def handle (line : String) : String :=
     | some n, some x =>
       match Wntr.InpFormat.sigWrite n x with
       | some ms => showRat (Wntr.InpFormat.sigValue ms)
+      | none => "none"
+    | _, _ => "bad"
+  | "K" :: ws =>
+    match ws.mapM parseTok with
+    | some toks => match parseAtom toks with
+      | some a => showAtom a
+      | none => "none"
+    | none => "bad"
+  | ["A", k, t] =>
+    let kind := if k == "pump" then some LinkKind.pump else if k == "valve" then some .valve else if k == "pipe" then some .pipe else none
+    match kind, parseTok t with
+    | some kind, some tok => match parseAct kind tok with
+      | some (.status s) => s!"status {s}"
+      | some (.speed v) => s!"speed {v}"
+      | some (.setting v) => s!"setting {v}"
       | none => "none"
     | _, _ => "bad"
   | "C" :: ws =>
